@@ -344,7 +344,10 @@ _RELT = {"T01": ["C01", "C02", "C10", "C12", "C18", "C19"], "T03": ["C03", "C04"
 # seventh corpus (X<prop>.p<i>, written after seed round 13; the authors were asked to spread the three patches over different functions)
 _RELT.update({"X02": ["C01", "C02", "C03", "C09", "C12", "C18", "C20"], "X03": ["C03", "C04", "C05", "C08", "C09", "C15", "C16"], "X07": ["C03", "C04", "C05", "C07", "C15", "C16", "C17"],
               "X05": ["C03", "C04", "C05", "C06", "C08"], "X12": ["C01", "C03", "C09", "C10", "C12", "C18"], "X14": ["C14"], "X16": ["C03", "C04", "C07", "C08", "C15", "C16"], "X17": ["C03", "C04", "C05", "C07", "C12", "C17"]})
-_SKIPT = {("V14", 3), ("V18", 3), ("X14", 3)}
+# eighth corpus (A<prop>.p<i>, written after seed round 15)
+_RELT.update({"A04": ["C03", "C04", "C05", "C07", "C08", "C15"], "A06": ["C03", "C04", "C05", "C06"], "A08": ["C03", "C04", "C05", "C08", "C19"], "A09": ["C03", "C09", "C12", "C18"],
+              "A10": ["C01", "C02", "C10", "C18"], "A11": ["C01", "C03", "C11", "C18", "C20"], "A13": ["C01", "C02", "C13", "C18"], "A15": ["C03", "C04", "C07", "C08", "C15", "C16"]})
+_SKIPT = {("V14", 3), ("V18", 3), ("X14", 3), ("A06", 3)}
 for _g, _props in _RELT.items():
     for _i in (1, 2, 3):
         if (_g, _i) in _SKIPT:
@@ -526,3 +529,12 @@ mutant("c06-len-through-a-sum", ["C06"], [("src/iter.rs", "    fn len(&self) -> 
 mutant_on_patch("m-X05p3-nth-everything-skipped-without-the-destroy", "X05.p3", ["C03", "C06"], [("src/iter.rs", "            self.index = self.index_back;\n\n            unsafe { self.drop_detached(skipped) };\n", "            self.index = self.index_back;\n\n            let _ = skipped;\n")], "")
 mutant_on_patch("m-X05p3-nth-back-comparison-off-by-one", "X05.p3", ["C06"], [("src/iter.rs", "        if n >= self.len() {\n            let skipped = self.index..self.index_back;\n            self.index_back = self.index;", "        if n > self.len() {\n            let skipped = self.index..self.index_back;\n            self.index_back = self.index;")], "")
 mutant_on_patch("m-X05p3-nth-destroys-before-advancing", "X05.p3", ["C05"], [("src/iter.rs", "        let skipped = self.index..nth_index;\n        self.index = nth_index;\n\n        unsafe {\n            self.drop_detached(skipped);\n", "        let skipped = self.index..nth_index;\n\n        unsafe {\n            self.drop_detached(skipped);\n            self.index = nth_index;\n")], "")
+
+# a new exported method of the by-value iterator that moves a cursor without moving / destroying the element (leak), or backwards (double drop)
+mutant("c06-new-method-skips-without-destroying", ["C03", "C06"], [("src/iter.rs", "    /// Returns the remaining items of this iterator as a mutable slice\n", "    /// Skips the next element\n    #[inline]\n    pub fn skip_one(&mut self) {\n        if self.index < self.index_back {\n            self.index += 1;\n        }\n    }\n\n    /// Returns the remaining items of this iterator as a mutable slice\n")], "")
+mutant("c06-new-method-rewinds-the-front-cursor", ["C03", "C06"], [("src/iter.rs", "    /// Returns the remaining items of this iterator as a mutable slice\n", "    /// Puts the last element taken from the front back\n    #[inline]\n    pub fn unread(&mut self) {\n        if self.index > 0 {\n            self.index -= 1;\n        }\n    }\n\n    /// Returns the remaining items of this iterator as a mutable slice\n")], "")
+mutant("c06-free-function-rewinds-the-front-cursor", ["C03"], [("src/iter.rs", "impl<T, N: ArrayLength> IntoIterator for GenericArray<T, N> {", "/// Puts the last element taken from the front back\npub fn unread<T, N: ArrayLength>(it: &mut GenericArrayIter<T, N>) {\n    if it.index > 0 {\n        it.index -= 1;\n    }\n}\n\nimpl<T, N: ArrayLength> IntoIterator for GenericArray<T, N> {")], "C03.Q")
+
+mutant_on_patch("m-A06p1-nth-back-max-with-plain-sub", "A06.p1", ["C06"], [("src/iter.rs", "self.index_back.saturating_sub(n)", "(self.index_back - n)")], "C06.N")
+mutant_on_patch("m-A08p3-map-fast-path-under-the-wrong-condition", "A08.p3", ["C03", "C04"], [("src/lib.rs", "            if mem::needs_drop::<T>() {\n                let mut source = ArrayConsumer::new(self);\n\n                let (array_iter, position) = source.iter_position();\n\n                FromIterator::from_iter(array_iter.map(|src| {", "            if !mem::needs_drop::<T>() {\n                let mut source = ArrayConsumer::new(self);\n\n                let (array_iter, position) = source.iter_position();\n\n                FromIterator::from_iter(array_iter.map(|src| {")], "")
+mutant_on_patch("m-A04p3-zip-consumers-without-position-on-the-right", "A04.p3", ["C04"], [("src/lib.rs", "                *right_position = *left_position;\n", "")], "")
